@@ -20,8 +20,38 @@ pub mod rip_workspace {
 //@@ item crates/rip-tools/src/runtime.rs struct ToolInvocation
 //@@ fn crates/rip-tools/src/runtime.rs files_for_invocation
 //@@ end
+// the two sides that must agree: where the write tool writes (builtins::resolve_path) and what the checkpoint of that path covers
+// (Workspace::to_relative, then root.join)
+use std::path::{Component, Path};
+use std::io;
+pub mod tool { use std::path::{Component, Path, PathBuf};
+    //@@ fn crates/rip-tools/src/builtins/mod.rs resolve_path pub
+    //@@ end
+}
+pub struct Workspace { pub root: PathBuf }
+impl Workspace {
+    //@@ fn crates/rip-workspace/src/lib.rs Workspace::to_relative pub
+    //@@ end
+    //@@ fn crates/rip-workspace/src/lib.rs Workspace::safe_join pub
+    //@@ end
+}
+fn agreement_clause() -> bool {
+    let root = PathBuf::from("/ws/root"); let ws = Workspace { root: root.clone() };
+    let norm = |p: &Path| p.components().filter(|c| !matches!(c, Component::CurDir)).map(|c| c.as_os_str().to_owned()).collect::<Vec<_>>();
+    for p in ["a.txt", "./a.txt", "d/b.txt", "d//b.txt", "d/./b.txt", ".env", "notes.txt ", " notes.txt", "notes.txt\n", "\tx", "a b.txt", "d/ b.txt", "d /b.txt", "..", "../x", "/abs", "", "."] {
+        let inv = ToolInvocation { name: "write".into(), args: Value { path: Some(p.to_string()), patch: None }, timeout_ms: None };
+        let Ok(target) = tool::resolve_path(&root, p) else { continue };          // the tool refuses: nothing can change
+        let covered: Option<PathBuf> = match files_for_invocation(&inv) { Ok(Some(f)) if f.len() == 1 => ws.to_relative(&f[0]).ok().map(|rel| root.join(rel)), _ => None };
+        if covered.as_ref().map(|c| norm(c)) != Some(norm(&target)) {
+            println!("WITNESS {{\"function\": \"files_for_invocation\", \"tool\": \"write\", \"path_argument\": {:?}, \"file_the_tool_writes\": {:?}, \"file_the_automatic_checkpoint_covers\": {:?}, \"problem\": \"the automatic checkpoint does not cover the file the tool can change\"}}", p, target, covered);
+            return true;
+        }
+    }
+    false
+}
 
 fn main() {
+    if agreement_clause() { return; }
     let names = ["write", "apply_patch", "read", "ls", "bash", "Write", ""];
     let paths = ["a.txt", "./a.txt", ".env", ".config/app.toml", "..", "../x", "/abs/file", "dir/./f", "dir//f", "", ".", "...", "a b", "./.hidden"];
     for name in names { for p in paths.iter().map(|p| Some(p.to_string())).chain([None]) { for patch in [None, Some("bad"), Some("x.txt"), Some(".env;dir/f"), Some("")] {
